@@ -619,6 +619,12 @@ M('c13-unique-remove-before-lock', 'C13', 'src/containers/qlisttbl.c',
   'B-single', None, 'unique-key removal and insertion in two critical sections')
 
 
+M('c18-md5-bitcount-64-late-widening', 'C18', 'src/internal/md5/md5c.c',
+  "    if ((context->count[0] += ((u_int32_t) inputLen << 3))\n            < ((u_int32_t) inputLen << 3))\n        context->count[1]++;\n    context->count[1] += ((u_int32_t) inputLen >> 29);",
+  "    {\n        u_int64_t nbits = ((u_int64_t) context->count[1] << 32) | context->count[0];\n        nbits += (u_int32_t) inputLen << 3;\n        context->count[0] = (u_int32_t) nbits;\n        context->count[1] = (u_int32_t) (nbits >> 32);\n    }",
+  'WID1', 'MD5Update', 'bit count kept in 64 bits but the shift is done in 32')
+
+
 def run_selftest(prop, rep, rule_fn, config='cmake-release'):
     """Apply every mutant of `prop` to a scratch copy, run rule_fn(prog, report) on it, and
     require a finding of the expected rule (and function)."""
